@@ -109,8 +109,15 @@ def qb(b):
     if z >= 256:
         if not stripped:
             return "(zeros (N.to_nat %d))" % z
-        return "(%s ++ zeros (N.to_nat %d))" % (qbytes(stripped), z)
-    return qbytes(b)
+        return "(%s ++ zeros (N.to_nat %d))" % (qblist(stripped), z)
+    return qblist(b)
+
+
+def qblist(b):
+    """explicit list of byte constructors (cheaper for coqc than the H len 0x... number notation)"""
+    if not b:
+        return "(@nil byte)"
+    return "[" + "; ".join("x%02x" % v for v in b) + "]"
 
 
 def qpair(a, b):
@@ -734,7 +741,7 @@ def correspondence(ctx):
         keep = []
         for cat in sorted(by_cat):
             idx = by_cat[cat]
-            cap = ctx.budget(40, 500) if idx[0] >= n_der else ctx.budget(60, 800)
+            cap = ctx.budget(30, 500) if idx[0] >= n_der else ctx.budget(40, 800)
             keep += idx if len(idx) <= cap else ctx.rng.sample(idx, cap)
         keep.sort()
         cs.exprs = [cs.exprs[i] for i in keep]
@@ -742,7 +749,8 @@ def correspondence(ctx):
         ctx.extra["correspondence_generated"] = sum(len(v) for v in by_cat.values())
     ctx.sample({"op": cs.descr[len(cs.descr) // 3][0], "input": cs.descr[len(cs.descr) // 3][1]})
     ctx.sample({"op": cs.descr[-1][0], "input": cs.descr[-1][1]})
-    bad = ctx.coq_eval("c19", IMPORTS, cs.exprs, preamble=PREAMBLE, shard=150)
+    shard = max(100, min(400, -(-len(cs.exprs) // vlib.NPROC)))     # one wave of coqc processes when possible
+    bad = ctx.coq_eval("c19", IMPORTS, cs.exprs, preamble=PREAMBLE, shard=shard)
     if bad is None:
         return
     ctx.traces += len(cs.exprs)
@@ -1291,7 +1299,7 @@ def search(ctx):
         "beyond, integers with the high bit set / leading zeros, OIDs with large arcs, bit strings in all three calling "
         "conventions) plus truncations, extensions, flipped tag/length bytes and empty input; util number/string codecs; "
         "point, curve-parameter, public and private key codecs on all 17 curves with the modular square root and the scalar "
-        "multiplication recorded from the implementation's own run as oracle tables; quick tier keeps <= 40/60 (thorough 500/800) cases per "
+        "multiplication recorded from the implementation's own run as oracle tables; quick tier keeps <= 30/40 (thorough 500/800) cases per "
         "category. search (implementation only): per curve a random key, keys with leading-zero scalar bytes and a key with a "
         "leading-zero coordinate: bytes of every encoding against an independent DER/SEC1 encoder, round trip through "
         "raw/uncompressed/compressed/hybrid, SPKI / SEC1 / PKCS#8 x named/explicit, PEM; every truncation and 5 extensions "
